@@ -6,6 +6,7 @@ package sched
 
 import (
 	"fmt"
+	"runtime/debug"
 	"sort"
 	"strings"
 	"time"
@@ -178,8 +179,11 @@ func (e *Explorer) run(choices []int, probeAt int, follow bool) *runResult {
 		return idx
 	}
 	core.X = x
-	rr.ctx = e.sc.Build(x)
-	x.Run()
+	if f := safeBuild(e.sc, x, &rr.ctx); f != nil {
+		x.Fail = f
+	} else {
+		x.Run()
+	}
 	e.stat.Steps += int64(x.Steps())
 	if x.Fail == nil && !x.Pruned && probeAt < 0 {
 		if e.sc.Final != nil {
@@ -193,6 +197,33 @@ func (e *Explorer) run(choices []int, probeAt int, follow bool) *runResult {
 	}
 	core.X = nil
 	return rr
+}
+
+// safeBuild runs the scenario's sequential set-up; a panic of golib code in it (constructor,
+// pre-fill) is a violation of the execution, not a failure of the explorer.
+func safeBuild(sc Scenario, x *core.Exec, ctx *any) (f *core.Failure) {
+	defer func() {
+		if p := recover(); p != nil {
+			st := string(debug.Stack())
+			site := "harness"
+			for _, ln := range strings.Split(st, "\n") {
+				if strings.HasPrefix(ln, "github.com/welllog/golib/") && !strings.Contains(ln, "/vshim/") {
+					site = strings.TrimPrefix(ln, "github.com/welllog/golib/")
+					if i := strings.LastIndex(site, "("); i > 0 {
+						site = site[:i]
+					}
+					break
+				}
+			}
+			lines := strings.Split(st, "\n")
+			if len(lines) > 24 {
+				lines = lines[:24]
+			}
+			f = &core.Failure{Sig: "panic|setup|" + strings.ReplaceAll(site, "[...]", ""), What: fmt.Sprintf("panic while building the scenario (constructor / sequential pre-fill): %v\n%s", p, strings.Join(lines, "\n"))}
+		}
+	}()
+	*ctx = sc.Build(x)
+	return nil
 }
 
 func (rr *runResult) schedule() []int {
@@ -374,7 +405,10 @@ func Replay(sc Scenario, schedule []int, probe string) (*core.Failure, []*core.O
 		return -1
 	}
 	core.X = x
-	ctx = sc.Build(x)
+	if bf := safeBuild(sc, x, &ctx); bf != nil {
+		core.X = nil
+		return bf, nil, nil
+	}
 	x.Run()
 	var f *core.Failure
 	if diverged == nil {
